@@ -1560,3 +1560,144 @@ def metric_lev_with_none(H):
 @op("kdtree")
 def kdtree_with_none(H):
     return prs.kdtree(H["seqs_with_none"])
+
+
+# =============================================================================================
+# remaining branches (argument validation, rarely taken paths)
+# =============================================================================================
+@heap
+def df_alpha_only():
+    return pd.DataFrame({"CDR3A": ["CAVKASGSRLT", "CLANGSRLT", "CAVKASGSRLT"], "TRAV": ["TRAV1-1*01", "TRAV1-1*01", "TRAV5*01"]}, index=[2, 4, 6])
+
+
+@heap
+def ref_set_far():
+    return {"CAAA", "CDDD"}
+
+
+@op("neighbors")
+def nndist_far(H):
+    return [prs.nndist_hamming("CAAA", H["ref_set_far"]), prs.nndist_hamming("CAKK", H["ref_set_far"]),
+            prs.nndist_hamming("CKKK", H["ref_set_far"]), prs.nndist_hamming("KKKK", H["ref_set_far"]),
+            prs.nndist_hamming("CKKK", H["ref_set_far"], maxdist=3), prs.nndist_hamming("CAKK", H["ref_set_far"], maxdist=1)]
+
+
+@op("entropy")
+def stdrenyi_bad_base(H):
+    return prs.stdrenyi2_entropy(H["df_stats"], "a", base=0)
+
+
+@op("validation")
+def check_input_not_iterable(H):
+    return prs.symdel(5)
+
+
+@op("validation")
+def check_input_max_returns(H):
+    return prs.kdtree(H["seqs_list"], max_returns=0)
+
+
+@op("validation")
+def check_input_ncpu(H):
+    return prs.kdtree(H["seqs_list"], n_cpu=0)
+
+
+@op("validation")
+def check_input_custom_nonzero(H):
+    return prs.hash_based(H["seqs_list"], custom_distance=lambda a, b: 1)
+
+
+@op("validation")
+def check_input_custom_fails(H):
+    return prs.symdel(H["seqs_list"], custom_distance=lambda a: 0)
+
+
+@op("validation")
+def check_input_maxcust(H):
+    return prs.kdtree(H["seqs_list"], custom_distance="hamming", max_custom_distance=-1)
+
+
+@op("validation")
+def check_input_seqs2_bad(H):
+    return prs.symdel(H["seqs_list"], seqs2=H["mixed_values"])
+
+
+@op("validation")
+def check_input_seqs2_notiter(H):
+    return prs.nearest_neighbor(H["seqs_list"], seqs2=7)
+
+
+@op("chao")
+def chao_zero_f2(H):
+    c = np.array([4, 0, 2])
+    return [prs.chao1(c), prs.var_chao1(c), prs.chao2(c, 3), prs.chao2(H["f_counts_single"], 3), prs.var_chao2(c, 3)]
+
+
+@op("sets")
+def jaccard_series(H):
+    return [prs.jaccard_index(H["set_b"], H["set_b"]), prs.jaccard_index(H["set_b"], pd.Series(["c", None, "x"]))]
+
+
+@op("pc")
+def pc_conditional_tiny(H):
+    return prs.pc_conditional(H["df_unique"], ["a"], "b")
+
+
+@op("powerlaw")
+def powerlaw_mle_fit_fails(H):
+    return prs.powerlaw_mle_alpha(H["counts_arr"], cmin=1.0, method="exact", options={"maxiter": 1})
+
+
+@op("util")
+def consensus_with_gaps(H):
+    return [prs.seqs_to_consensus(["CA-SF", "C--SF", "C--SF", "CAWSF"], align=False), prs.seqs_to_regex(["CA-SF", "C--SF", "CAWSF"], align=False)]
+
+
+@op("util")
+def align_debug_missing(H):
+    return prs.align_seqs(H["seqs_list2"], debug=True)
+
+
+@op("legend")
+def legend_handler_offset(H):
+    import matplotlib.pyplot as plt
+
+    fig, ax = plt.subplots()
+    (l1,) = ax.plot([0, 1], [0, 1], "o", color="C0")
+    (l2,) = ax.plot([0, 1], [1, 0], "s", color="C1")
+    (l3,) = ax.plot([0, 1], [0.5, 0.5], "-", color="C2")
+    leg = ax.legend([(l1, l2), (l3, l1)], ["pair", "line"], handler_map={tuple: pp.HandlerTupleOffset()})
+    leg2_handler = pp.HandlerTupleOffset(horizontal=False)
+    fig.canvas.draw()
+    return [fig, [t.get_text() for t in leg.get_texts()], leg2_handler.horizontal]
+
+
+@op("clustermap", slow=True)
+def clustermap_split_annot(H):
+    from scipy.spatial.distance import squareform
+
+    d = squareform(prs.pdist(H["seqs_eqlen"]).astype(float))
+    return pp.clustermap_split(pd.DataFrame(d), pd.DataFrame(d + 1), annot=True, cbar_pos=None, figsize=(3, 3),
+                               xticklabels=list("abcdef"), yticklabels=list("uvwxyz"))
+
+
+@op("clustermap", slow=True)
+def clustermap_split_annot_array(H):
+    from scipy.spatial.distance import squareform
+
+    d = squareform(prs.pdist(H["seqs_eqlen"]).astype(float))
+    return pp.clustermap_split(pd.DataFrame(d), pd.DataFrame(d * 3), annot=np.round(d), figsize=(3, 3), row_cluster=False)
+
+
+@op("clustermap", slow=True)
+def clustermap_split_annot_badshape(H):
+    from scipy.spatial.distance import squareform
+
+    d = squareform(prs.pdist(H["seqs_eqlen"]).astype(float))
+    return pp.clustermap_split(pd.DataFrame(d), pd.DataFrame(d), annot=np.zeros((2, 2)), figsize=(3, 3))
+
+
+@op("hclust")
+def default_metric_alpha(H):
+    return [prs.get_default_metric_for_input_data(H["df_alpha_only"]).name, prs.pcDelta(H["df_alpha_only"], bins=H["bins_arr"]),
+            prs.hierarchical_clustering(H["df_alpha_only"])]
